@@ -84,7 +84,7 @@ def known_class(src: str):
                 raw = _slice(src, st0, t.end)
                 if "{{" in raw or "}}" in raw:
                     cls.add("KF-C10-doubled-brace")
-    if re.search(r":\s*\}", src):
+    if re.search(r":\}", src):  # EMPTY spec only: a spec made of blanks is a spec (`f'{x: }'` keeps Constant(' '))
         cls.add("KF-C10-empty-spec")
     if re.search(r"\{[^{}]*:=", src):
         cls.add("KF-C10-spec-starting-with-eq")
@@ -183,6 +183,10 @@ def build_inputs(tier):
               f"f{tq}''{{x}}''{{y}}{tq}", f"rf{dq}\"\"{{x}}{dq}", "f\"{x:'^10}\"", "f'{x:\"^10}'", f"f{tq}{{x:'^10}}{tq}", "f\"{name:'>12}|{value:'<8}\"", "f'{d[\"k\"]:>5}'", "f\"{x!r:'<6}\""]:
         cases.append(("quotes-inside", "x = " + s + "\n", "exec"))
         cases.append(("quotes-inside", "print(" + s + ", 1)\n", "exec"))
+    # format specs made of blanks only (a space is the sign flag: the spec is NOT empty), alone and after a conversion
+    for s_ in ["f'{x: }'", "f'{x:  }'", 'f"{x!r: }"', "f'{x:\t}'", "f'{x: }{y:  }z'", "f'a{x!s: }b'", "f'{x: >5}'", "f'{x:> }'", 'f"""{x: }"""']:
+        cases.append(("blank-spec", "x = " + s_ + "\n", "exec"))
+        cases.append(("blank-spec", "print(" + s_ + ", 1)\n", "exec"))
     # product generator (valid sub-domain and known-defect sub-domain)
     for _ in range(900 * N):
         p = r.choice(PREFIXES)
